@@ -112,6 +112,9 @@ def main(tier, seed, replay=None):
         chk("contains-iff-find", run("contains(v1, v2) == (find(v1, v2) >= 0)", v1=s, v2=t), True, s=s, t=t)
         chk("starts_with", run("starts_with(v1, v2)", v1=s, v2=t), s.startswith(t), s=s, t=t)
         chk("ends_with", run("ends_with(v1, v2)", v1=s, v2=t), s.endswith(t), s=s, t=t)
+        # the infix spellings say what the functions say
+        chk("infix", run("[v1 starts with v2, v1 starts not with v2, v1 ends with v2, v1 ends not with v2, v1 contains v2, v1 contains not v2, v2 in v1, v2 not in v1, v2 is in v1, v2 is not in v1]", v1=s, v2=t),
+            [s.startswith(t), not s.startswith(t), s.endswith(t), not s.endswith(t), w, not w, w, not w, w, not w], s=s, t=t)
         chk("concat", run("v1 + v2", v1=s, v2=t), s + t, s=s, t=t)
         chk("concat-laws", run("[length(v1 + v2) == length(v1) + length(v2), starts_with(v1 + v2, v1), ends_with(v1 + v2, v2), contains(v2 + v1 + v2, v1)]", v1=s, v2=t),
             [True, True, True, True], s=s, t=t)
